@@ -256,6 +256,17 @@ def edit(rng, base, kind):
         man = inv["manifest"]
         paths = [p for ps in man.values() for p in ps]
         fx = {"md5": {hashlib.md5(base.pool.get(d, b"")).hexdigest(): list(ps) for d, ps in man.items()}}
+        # a second block under one of the other algorithms rocfl can verify (correct values unless this is the edit)
+        other = rng.choice(["sha1", "blake2b-160", "blake2b-256", "blake2b-384", "blake2b-512", "sha512/256", None])
+        if other:
+            hf = {"sha1": hashlib.sha1, "blake2b-512": hashlib.blake2b, "sha512/256": lambda b: hashlib.new("sha512_256", b),
+                  "blake2b-160": lambda b: hashlib.blake2b(b, digest_size=20), "blake2b-256": lambda b: hashlib.blake2b(b, digest_size=32),
+                  "blake2b-384": lambda b: hashlib.blake2b(b, digest_size=48)}[other]
+            fx[other] = {hf(base.pool.get(d, b"")).hexdigest(): list(ps) for d, ps in man.items()}
+            if kind == "fixity-wrong-digest" and rng.random() < 0.5:
+                k = sorted(fx[other])[0]; fx[other][hf(b"something else entirely").hexdigest()] = fx[other].pop(k)
+                inv["fixity"] = fx; desc += " (" + other + ")"
+                return inv, raw, desc
         if kind == "fixity-bad-path":
             k = sorted(fx["md5"])[0]; fx["md5"][k].append(bad_variants(rng, paths[0]))
         elif kind == "fixity-dup-digest":
@@ -269,9 +280,26 @@ def edit(rng, base, kind):
             fx["md5"][hashlib.md5(b"zzz").hexdigest()] = ["v1/content/not-in-manifest"]
         inv["fixity"] = fx
     elif kind == "dup-json-key":
-        text = json.dumps(inv, ensure_ascii=False)
-        k = rng.choice(["id", "head", "digestAlgorithm", "type"])
-        raw = ("{" + json.dumps(k) + ":" + json.dumps(inv[k]) + "," + text[1:]).encode("utf-8"); desc += " " + k
+        # a key written twice (same value): top level, manifest / state digests (each digest MUST occur only once),
+        # the keys of a version block and of its user.  A repeated version name is not generated: the specification
+        # does not speak about it and rocfl accepts it (last one wins), which cannot be held against either side
+        v = rng.choice(sorted(inv["versions"]))
+        spots = [((), k) for k in inv] + [(("manifest",), d) for d in list(inv["manifest"])[:1]] + \
+                [(("versions", v), k) for k in inv["versions"][v]] + [(("versions", v, "state"), d) for d in list(inv["versions"][v]["state"])[:1]]
+        if isinstance(inv["versions"][v].get("user"), dict):
+            spots += [(("versions", v, "user"), k) for k in inv["versions"][v]["user"]]
+        where, k = rng.choice(spots)
+
+        def dump(x, path):
+            if isinstance(x, dict):
+                items = ["%s:%s" % (json.dumps(kk, ensure_ascii=False), dump(vv, path + (kk,))) for kk, vv in x.items()]
+                if path == where:
+                    items.insert(rng.randint(0, len(items)), "%s:%s" % (json.dumps(k, ensure_ascii=False), dump(x[k], path + (k,))))
+                return "{" + ",".join(items) + "}"
+            if isinstance(x, list):
+                return "[" + ",".join(dump(y, path) for y in x) + "]"
+            return json.dumps(x, ensure_ascii=False)
+        raw = dump(inv, ()).encode("utf-8"); desc += " %s at /%s" % (k[:20], "/".join(where))
     elif kind == "version-not-object":
         v = rng.choice(sorted(inv["versions"])); inv["versions"][v] = rng.choice(["x", 5, [], None])
     elif kind == "state-not-lists":
